@@ -414,7 +414,9 @@ fn convert_prom_to_arrow(req: &WriteRequest) -> Result<RecordBatch> {
 
             // Detect value type and route to appropriate column
             let val = sample.value;
-            if val.is_finite() && val.fract() == 0.0 {
+            // i64::MAX as f64 rounds up to 2^63, which `as i64` would saturate to 2^63 - 1
+            let fits_i64 = val >= i64::MIN as f64 && val < i64::MAX as f64;
+            if val.is_finite() && val.fract() == 0.0 && fits_i64 {
                 // Value is an integer (no fractional part)
                 let int_val = val as i64;
 
